@@ -29,7 +29,7 @@ INSTS = {
     "C19": TAKES,
     "C20": ALL,
 }
-RANDOM = {"quick": (300, 40), "thorough": (20000, 60)}
+RANDOM = {"quick": (1500, 40), "thorough": (20000, 60)}
 
 
 def plan(prop, tier):
